@@ -81,8 +81,8 @@ def check(ctx):
                   reason="limiter key is %s, expected client_addr.ip()" % render(k, maxdepth=3), detail="enqueue(client_addr.ip())")
     if eff is not None:
         vals = leafs(eff)
-        kinds = sorted(set(classify_addr(v) for v in vals))
-        ctx.check(kinds == ["peer", "proxied-or-peer"], R, "C15/effective-address/value", site(body, enq[0][0]),
+        kinds = sorted(set(k for v in vals for k in classify_addr(v)))
+        ctx.check(kinds == ["peer", "proxied-source"], R, "C15/effective-address/value", site(body, enq[0][0]),
                   reason="effective address alternatives are %s; expected {PROXY source falling back to peer, peer}" % kinds,
                   detail="client_addr ∈ {header.proxied_address().map(source).unwrap_or(addr) [proxy on], addr [proxy off]}")
         # which alternative on which branch
@@ -140,36 +140,35 @@ def check(ctx):
     if len(enq) == 1 and H.spawn is not None:
         eb, et = enq[0]
         sb = H.spawn[0]
-        t_edges, f_edges = [], []
-        lim_some, lim_none = [], []
-        for b in body.blocks:
-            if b.cleanup or b.term.kind != "switch" or body.is_noise(b.term):
-                continue
-            e, ls = an.switch_info(b.idx)
-            x = flow.strip(e)
-            if x[0] == "call" and x[4] == eb and flow.short(x[1]).endswith("enqueue"):
-                t_edges += [(b.idx, tb) for tb, l in ls.items() if "true" in l]
-                f_edges += [(b.idx, tb) for tb, l in ls.items() if "false" in l]
-            if self_field(e) == "rate_limiter":
-                lim_some += [(b.idx, tb) for tb, l in ls.items() if "Some" in l]
-                lim_none += [(b.idx, tb) for tb, l in ls.items() if "None" in l or "otherwise" in l]
-        ctx.check(bool(t_edges) and bool(f_edges) and bool(lim_some), RG, "C15/limiter-gate/branches", site(body, eb),
-                  reason="anchor-missing: enqueue's verdict / the limiter option is not branched on", detail="branch on limiter Some and on enqueue's verdict")
-        okk, p = g.must_pass(sb, cut_edges=t_edges + lim_none)
-        ctx.check(okk, RG, "C15/limiter-gate/spawn-needs-admission", site(body, sb),
+        # three scenarios decide the gate (pv/sample.py Scenario): no limiter configured / limiter admits / limiter refuses.
+        # Each fixes the outcome of the `self.rate_limiter` test and of enqueue(); what stays reachable is what the handler does.
+        from ..sample import Scenario
+
+        def lim(choice):
+            def sw(bb, e, ls):
+                if self_field(e) == "rate_limiter":
+                    return choice
+                return None
+            return sw
+        none = Scenario(ctx, body, switches=lim(("None", "otherwise")))
+        admit = Scenario(ctx, body, calls={eb: True}, switches=lim(("Some",)))
+        refuse = Scenario(ctx, body, calls={eb: False}, switches=lim(("Some",)))
+        ctx.check(none.reachable(sb) and admit.reachable(sb) and admit.reachable(eb) and refuse.reachable(eb) and refuse.reach != admit.reach, RG,
+                  "C15/limiter-gate/branches", site(body, eb),
+                  reason="anchor-missing: enqueue's verdict / the limiter option is not branched on (spawn reachable without limiter: %s, when admitted: %s; verdict changes the outcome: %s)"
+                         % (none.reachable(sb), admit.reachable(sb), refuse.reach != admit.reach),
+                  detail="branch on limiter Some and on enqueue's verdict")
+        ctx.check(not refuse.reachable(sb), RG, "C15/limiter-gate/spawn-needs-admission", site(body, sb),
                   reason="a connection task can be spawned although the limiter refused the address",
-                  detail="spawn dominated by (no limiter) ∨ enqueue == true", witness=[site(body, x) for x in (p or [])[-6:]])
-        okk, p = g.must_pass(eb, cut_edges=lim_some)
-        ctx.check(okk, RG, "C15/limiter-gate/consulted-when-configured", site(body, eb),
-                  reason="enqueue not tied to the configured limiter", detail="enqueue on the Some edge of self.rate_limiter")
-        okk, p = g.must_pass(sb, cut_nodes=[eb], cut_edges=lim_none)
+                  detail="spawn unreachable when enqueue returns false")
+        ctx.check(not none.reachable(eb), RG, "C15/limiter-gate/consulted-when-configured", site(body, eb),
+                  reason="enqueue not tied to the configured limiter", detail="enqueue only with a configured limiter")
+        okk, p = admit.g.must_pass(sb, cut_nodes=[eb])
         ctx.check(okk, RG, "C15/limiter-gate/not-bypassable", site(body, sb),
-                  reason="with a limiter configured the spawn is reachable without consulting it", detail="limiter Some ⇒ enqueue before spawn")
-        # refusal edge
-        starts = []
-        for (_, tb) in f_edges:
-            starts += g.nodes_of_bb(tb)
-        reach = set(g.bb(n) for n in g.reachable(starts)) if starts else set()
+                  reason="with a limiter configured the spawn is reachable without consulting it", detail="limiter Some ⇒ enqueue before spawn",
+                  witness=[site(body, x) for x in (p or [])[-6:]])
+        # after a refusal
+        reach = refuse.reach_from(body.blocks[eb].term.successors())
         bad = []
         for bb, t in body.calls():
             if bb in reach and not body.is_noise(t):
@@ -255,20 +254,39 @@ def leafs(e):
     return [e]
 
 
+def _from_header(e):
+    """e is proxied_address() of the proxy_header() of the stream returned by create_from_tokio"""
+    src = flow.strip(e)
+    if src[0] == "call" and flow.short(src[1]).endswith("proxied_address"):
+        hdr = flow.strip(src[3][0])
+        if hdr[0] == "call" and flow.short(hdr[1]).endswith("proxy_header") and calls_in(hdr, "create_from_tokio"):
+            return True
+    return False
+
+
 def classify_addr(v):
+    """the set of address sources one leaf of the effective-address expression stands for: 'peer' (the accepted
+    socket's address), 'proxied-source' (source address of the PROXY header); the combinator spelling
+    `header.proxied_address().map(|a| a.source).unwrap_or(addr)` stands for both"""
     v = flow.strip(v)
     if param_name(v) == "addr" and not field_path(v)[1][1:]:
-        return "peer"
+        return ["peer"]
     if v[0] == "call" and flow.short(v[1]).endswith("Option::unwrap_or"):
         d = flow.strip(v[3][1])
         m = flow.strip(v[3][0])
-        if param_name(d) == "addr" and m[0] == "call" and flow.short(m[1]).endswith("Option::map"):
-            src = flow.strip(m[3][0])
-            if src[0] == "call" and flow.short(src[1]).endswith("proxied_address"):
-                hdr = flow.strip(src[3][0])
-                if hdr[0] == "call" and flow.short(hdr[1]).endswith("proxy_header") and calls_in(hdr, "create_from_tokio"):
-                    return "proxied-or-peer"
-    return "other:" + render(v, maxdepth=2)
+        if param_name(d) == "addr" and m[0] == "call" and flow.short(m[1]).endswith("Option::map") and _from_header(m[3][0]):
+            return ["peer", "proxied-source"]
+    if v[0] == "call" and flow.short(v[1]).endswith("Option::map_or") and len(v[3]) == 3:
+        if param_name(v[3][1]) == "addr" and _from_header(v[3][0]):
+            return ["peer", "proxied-source"]
+    # match header.proxied_address() { Some(a) => a.source, None => addr }
+    if v[0] == "field" and v[2] in ("source", "destination"):
+        inner = flow.strip(v[1])
+        if inner[0] == "field" and inner[2] == "0":
+            var = flow.strip(inner[1])
+            if var[0] == "variant" and var[2] == "Some" and _from_header(var[1]):
+                return ["proxied-" + v[2]]
+    return ["other:" + render(v, maxdepth=2)]
 
 
 def _same_cell(a, b):
